@@ -243,3 +243,32 @@ def call(ex, b, argt):
     if b in ('sin', 'cos'):       # keep the partner and sin^2+cos^2=1 (created by _facts) available
         trig_var(ex, 'sin', argt); trig_var(ex, 'cos', argt)
     return v
+
+def model_inputs_hook(m, res, vals):
+    """replay support: the Ackermannised model fixes values of sin!k/cos!k but leaves the angle inputs arbitrary; for every real input variable x whose
+    multiples c*x occur as a trig argument, replace its value by atan2(sin, cos)/c so that the native run sees the angles the model talks about"""
+    import math
+    ex = res.ex; tab = ex.__dict__.get('trig', {})
+    def val(t):
+        v = z3.simplify(m.eval(t, model_completion=True))
+        if z3.is_rational_value(v): return v.numerator_as_long() / v.denominator_as_long()
+        if z3.is_algebraic_value(v):
+            a = v.approx(20); return a.numerator_as_long() / a.denominator_as_long()
+        return None
+    found = {}
+    for key, (v, argt) in tab.items():
+        if key[0] != 'sin' or len(argt) != 1 or _find_ite(argt[0]) is not None: continue
+        p = poly_of(argt[0])
+        if len(p.t) != 1: continue
+        (mono, coef), = p.t.items()
+        if len(mono) != 1: continue
+        ckey = ('cos',) + key[1:]
+        if ckey not in tab: continue
+        sv, cv = val(v), val(tab[ckey][0])
+        if sv is None or cv is None: continue
+        found.setdefault(mono[0], math.atan2(sv, cv) / float(coef))
+    if not found: return vals
+    out = []
+    for terms, row in zip(res.ins, vals):
+        out.append([Fraction(found[t.sexpr()]) if (z3.is_real(t) and z3.is_const(t) and t.sexpr() in found) else x for t, x in zip(terms, row)])
+    return out
